@@ -103,7 +103,7 @@ SPEC = {
                  "C08_collector_Commit_error_derived", "C08_collector_committed_panics", "C08_model_Add_is_collector_Add",
                  "C08_model_Commit_is_collector_Commit",
                  "C08_calls_flatten", "C08_model_Stop_is_source", "C08_model_Flush_is_source", "C08_model_startBatchWriter_is_source", "C08_calls_flatten_Enqueue", "C08_model_Enqueue_is_source",
-                 "C08_loop_compile", "C08_model_writer_is_source", "C08_reachable_writer_is_source", "C08_swapped_source_is_swapped_model", "C08_nil_timer_channel_is_notimer_model", "C08_stmts_var_defaultOptions", "C08_stmts_NewBatchedWriter", "C08_stmts_Options_apply", "C08_stmts_WithQueueSize", "C08_stmts_WithBatchSize", "C08_stmts_WithBatchTimeout", "C08_stmts_BatchedWriter_startBatchWriter", "C08_stmts_BatchedWriter_StopBatchWriter", "C08_stmts_BatchedWriter_Enqueue", "C08_stmts_BatchedWriter_Flush", "C08_stmts_BatchedWriter_runBatchWriter", "C08_stmts_newBatchCollector", "C08_stmts_BatchCollector_Add", "C08_stmts_BatchCollector_Commit", "C08_stmts_CleanupTimer"],
+                 "C08_loop_compile", "C08_model_writer_is_source", "C08_reachable_writer_is_source", "C08_swapped_source_is_swapped_model", "C08_nil_timer_channel_is_notimer_model", "C08_store_calls_are_source", "C08_stmts_var_defaultOptions", "C08_stmts_NewBatchedWriter", "C08_stmts_Options_apply", "C08_stmts_WithQueueSize", "C08_stmts_WithBatchSize", "C08_stmts_WithBatchTimeout", "C08_stmts_BatchedWriter_startBatchWriter", "C08_stmts_BatchedWriter_StopBatchWriter", "C08_stmts_BatchedWriter_Enqueue", "C08_stmts_BatchedWriter_Flush", "C08_stmts_BatchedWriter_runBatchWriter", "C08_stmts_newBatchCollector", "C08_stmts_BatchCollector_Add", "C08_stmts_BatchCollector_Commit", "C08_stmts_CleanupTimer"],
     "trusted_base": ["the go/ast translators harness/c08/collgen, callgen and loopgen (pattern matching on source text; anything unrecognised becomes `.unsupported`) and the meaning given to their terms in Hive/Model/BatchWriterColl.lean / BatchWriterCalls.lean / BatchWriterLoop.lean (Go semantics of mutex, Once, WaitGroup, atomics, channel send / select as instruction steps): every function of the two anchored files is derived this way",
                      "hand-written protocol model Hive/Model/BatchWriter.lean of kvstore/batch_writer.go + batch_collector.go (now equal, step function by step function, to the interpreted generated programs), tied by (a) the trace predicate evaluated on traces of the real code, (b) the witness schedules replayed on the real code with trace equality, (c) regenerated synchronisation skeletons, type facts and normalised statements (guards, arguments, constants) of every anchored function",
                      "Go semantics of sync.Once / Mutex / WaitGroup / atomics / buffered and unbuffered channels / select as written in the model",
